@@ -400,6 +400,15 @@ def gen_engine_ops(ctx, npat, cnames, hostile):
         for ch in c07.STANDARD[ty]:
             pats.extend([(ty, ch)] * 3)
     pats.extend(("datetime", p) for p in DT_FIXED_PATTERNS)
+    # embedded patterns (their own bucket, the outer template's date / time as template), mostly with a template value
+    for _ in range(max(20, npat // 12)):
+        d = c07.join_fields(rng, "date", c07.gen_date_fields(rng, with_cal=False) or ["uuuu"])
+        t = c07.join_fields(rng, "time", c07.gen_time_fields(rng) or ["HH"])
+        parts = ["ld<" + d + ">", "lt<" + t + ">"] if rng.random() < 0.7 else (["ld<" + d + ">", t] if rng.random() < 0.5 else [d, "lt<" + t + ">"])
+        if rng.random() < 0.3:
+            parts.reverse()
+        pats.append(("datetime!", parts[0] + c07.lit(rng, "datetime") + parts[1]))
+    pats.extend([("datetime!", "ld<yyyy-MM-dd>'T'lt<HH:mm:ss>"), ("datetime!", "ld<d>lt<HH>"), ("datetime!", "lt<HH:mm:ss.FFF>' 'ld<D>")])
     for ty, text in pats:
         try:
             h = hexs(text)
@@ -409,7 +418,14 @@ def gen_engine_ops(ctx, npat, cnames, hostile):
         blob = culture_blob(cn)
         if blob is None:
             cn, blob = "", "inv"
+        force_tmpl = ty.endswith("!")
+        ty = ty.rstrip("!")
         tok = type_token(rng, ty)
+        if force_tmpl and tok == "datetime" and rng.random() < 0.8:
+            for _ in range(20):
+                tok = type_token(rng, ty)
+                if tok != "datetime":
+                    break
         try:
             pat = create_t(tok, text, cn)
         except Exception:  # noqa: BLE001 — creation is the compile suite's business
@@ -470,6 +486,7 @@ def run_engine_correspondence(ctx, hostile):
             dl.append("pat.delim " + key)
     rep = c07.model_eval(dl, "drv_text")
     ctx.note("stepped_roundtrip:Delimited-holds", {"patterns": len(rep), "delimited": rep.count("1"), "not": rep.count("0"), "not-stepped": rep.count("-")})
+    ctx.note("segmented_roundtrip:DelimitedSegs-holds", {"patterns-with-embedded-parts": rep.count("3") + rep.count("2"), "delimited": rep.count("3"), "not": rep.count("2")})
     # compileDate_wf / compileDateTime_wf say every accepted date-like pattern passes the decidable check; evaluated here as well
     wl = ["pat.wf" + x[len("pat.delim"):] for x in dl if x.split(" ")[1].split(":")[0] in ("date", "datetime", "annual", "instant")]
     wrep = c07.model_eval(wl, "drv_text")
